@@ -58,8 +58,30 @@ func runC29(x *simkit.Exec) {
 			return
 		}
 	}
-	// one execution with seeded transient faults
+	// graceful shutdowns (context cancelled; operations on fresh contexts still succeed) at a sample of points
+	nShut := 3
+	if x.Thorough() {
+		nShut = 40
+	}
+	for i := 0; i < nShut && ref.compactorOps > 0; i++ {
+		k := 1 + x.Draw("shutdownPoint", ref.compactorOps)
+		r := sc.execute(x, fmt.Sprintf("shutdown%d", k), lcOpts{shutdownAt: k, checkServing: true})
+		if x.Failed() {
+			return
+		}
+		if !r.quiescent {
+			x.Troublef("c29: shutdown at op %d: not quiescent after restarts (%v)", k, sc.describe())
+			return
+		}
+	}
+	// executions with seeded transient faults and with write outages
 	if x.Bool("faultRun", 1, 2) {
 		sc.execute(x, "faults", lcOpts{faults: true, checkServing: true})
+		if x.Failed() {
+			return
+		}
+	}
+	if x.Bool("outageRun", 1, 2) {
+		sc.execute(x, "outages", lcOpts{outages: true, checkServing: true})
 	}
 }
